@@ -1,7 +1,7 @@
 /- C14: the concrete witness used by the negation on the pinned receiver and by the non-vacuity
    examples (two nodes, one record, one shard of three symbols, chunk size 2) -/
 import SemaModel.C14.Pinned
-import SemaModel.C14.Spec
+import SemaModel.C14.Epochs
 namespace Sema.C14
 
 /-! the witness: two nodes, shard 7 = [1,2,3] on node 0, owner node 1, chunk size 2; the transfer is
@@ -20,8 +20,8 @@ def wS1 (trunc : Bool) : St Nat Nat := syncNode (wCfg trunc) { failAt := some (7
 theorem wSumOK (t : Bool) : SumOK (wCfg t) :=
   ⟨fun a b h => enc_inj a b (by simp only [wCfg, wSum] at h; omega), by simp [wCfg, wSum]⟩
 
-theorem wInit : Init wRo wFo wS0 := by
-  refine ⟨?_, ?_, ?_, ?_, ?_, fun _ _ => rfl, fun _ _ => rfl⟩
+theorem wInit (t : Bool) : Init (wCfg t) wRo wFo wS0 := by
+  refine ⟨?_, ?_, ?_, ?_, ?_, fun _ _ => rfl, fun _ _ => rfl, fun _ _ _ => rfl⟩
   · intro n k v h
     simp only [wS0] at h
     split at h
@@ -58,7 +58,7 @@ theorem wReach (t : Bool) : Reachable (wCfg t) wS0 (wS1 t) := by
   rw [wS1_eq]; exact reachable_run _ _ .init
 
 theorem wCovers (t : Bool) : Covers (wCfg t) wRo wFo [0, 1] [5] [7] := by
-  refine ⟨?_, ?_, fun _ _ => by simp [wCfg]⟩
+  refine ⟨?_, ?_, fun _ _ => by simp [wCfg], fun _ _ => rfl⟩
   · intro k h; simp only [wRo] at h; split at h <;> simp_all
   · intro k h; simp only [wFo] at h; split at h <;> simp_all
 
@@ -84,5 +84,61 @@ theorem wHolders (t : Bool) : ∀ n k, ((wS1 t).recs n k).isSome ∨ ((wS1 t).fi
         simp [this] at h
       · have : (wS1 t).files n k = none := hs.files_none n k (by simpa [wCfg] using e) (by simp [wS0, e0])
         simp [this] at h
+
+/-! ### a history over three server lists (non-vacuity of the `C14_epochs_*` theorems)
+
+Three nodes; record 0 (`[1]`) and shard 1 (`[1,2,3]`, never moves) on node 0.
+1. the list grows: node 2 becomes the owner of record 0; node 0 sends it and is killed before its
+   local delete — the record is on nodes 0 and 2;
+2. the change is rolled back: node 0 is the owner again, node 2 is switched off and keeps its disk;
+3. the cluster serves: the collection gains a shard, record 0 becomes `[1,9]` on node 0 — the copy on
+   node 2 is now OLDER;
+4. the list grows again (owner node 2, all nodes started) and a failure-free round runs. -/
+abbrev eN := Fin 3
+abbrev eK := Fin 2
+def eRo : eK → Option Content := fun k => if k = 0 then some [1] else none
+def eFo : eK → Option Content := fun k => if k = 1 then some [1, 2, 3] else none
+def eCfg0 : Cfg eN eK := { owner := fun _ => 0, fowner := fun _ => 0, cs := 2, trunc0 := true, sum := wSum }
+def eW0 : World eN eK := { cfg := eCfg0, st := placedSt (fun _ => 0) (fun _ => 0) eRo eFo, ro := eRo, fo := eFo }
+def eEvents : List (Ev eN eK) :=
+  [.reconf (fun _ => 2) (fun _ => 0) (fun _ => true),
+   .sync (.restart 0), .sync (.rsend 0 2 [0] false), .sync (.fail 0),
+   .reconf (fun _ => 0) (fun _ => 0) (fun n => n != 2),
+   .sync (.restart 0),
+   .wrec 0 (some [1, 9]),
+   .reconf (fun _ => 2) (fun _ => 0) (fun _ => true)]
+def eRun (es : List (Ev eN eK)) (w : World eN eK) : World eN eK := es.foldl (fun w e => wstep e w) w
+def eW (i : Nat) : World eN eK := eRun (eEvents.take i) eW0
+/-- the same history, but the last change makes node 0 the owner although node 2 is started with its
+older copy (not `Safe`) -/
+def eWbad : World eN eK := wstep (.reconf (fun _ => 0) (fun _ => 0) (fun _ => true)) (eW 7)
+
+theorem eSumOK : SumOK eW0.cfg :=
+  ⟨fun a b h => enc_inj a b (by simp only [eW0, eCfg0, wSum] at h; omega), by simp [eW0, eCfg0, wSum]⟩
+
+theorem eInit : WInit eW0 := init_placedSt _ _ _ _ _ (fun _ => rfl)
+
+theorem eSupp (i : Nat) (hi : i ≤ 8) : Supp (eW i) [0, 1, 2] [0] [1] := by
+  have : i = 0 ∨ i = 1 ∨ i = 2 ∨ i = 3 ∨ i = 4 ∨ i = 5 ∨ i = 6 ∨ i = 7 ∨ i = 8 := by omega
+  rcases this with h | h | h | h | h | h | h | h | h <;> subst h <;>
+    exact ⟨by decide, by decide, by decide, by decide⟩
+
+theorem eReach7 : WReach eW0 (eW 7) := by
+  have r0 : WReach eW0 (eW 0) := .init
+  have r1 : WReach eW0 (eW 1) :=
+    .reconf _ _ _ r0 (safeB_sound (nodes := [0, 1, 2]) (rkeys := [0]) (fkeys := [1]) (eSupp 0 (by omega)) (by decide))
+  have r2 : WReach eW0 (eW 2) := .sync _ r1
+  have r3 : WReach eW0 (eW 3) := .sync _ r2
+  have r4 : WReach eW0 (eW 4) := .sync _ r3
+  have r5 : WReach eW0 (eW 5) :=
+    .reconf _ _ _ r4 (safeB_sound (nodes := [0, 1, 2]) (rkeys := [0]) (fkeys := [1]) (eSupp 4 (by omega)) (by decide))
+  have r6 : WReach eW0 (eW 6) := .sync _ r5
+  exact .wrec _ _ r6 (quietRB_sound (nodes := [0, 1, 2]) (eSupp 6 (by omega)) 0 (by decide))
+
+theorem eReach : WReach eW0 (eW 8) :=
+  .reconf _ _ _ eReach7 (safeB_sound (nodes := [0, 1, 2]) (rkeys := [0]) (fkeys := [1]) (eSupp 7 (by omega)) (by decide))
+
+theorem eCovers : Covers (eW 8).cfg (eW 8).ro (eW 8).fo [0, 1, 2] [0] [1] :=
+  ⟨by decide, by decide, by decide, by decide⟩
 
 end Sema.C14
